@@ -675,10 +675,8 @@ class Sequence(ExprList, SeqDomain):
             y.append(expr(0))
 
             for m, b1 in enumerate(b):
-                try:
+                if m <= n:
                     y[-1] += b1 * x[n - m] / a0
-                except:
-                    pass
 
             yn = y[-1]
             for m, a1 in enumerate(a[1:]):
